@@ -665,8 +665,10 @@ func MangleRule(w *World, b *Backend, r *Result, rule string) {
 					for _, el := range v.Finite {
 						add(asTmpl(el), "returned")
 					}
-				} else if v.Elem != nil {
-					add(asTmpl(v.Elem), "returned")
+				} else {
+					for _, el := range v.uniform() {
+						add(asTmpl(el), "returned")
+					}
 				}
 			}
 		}
